@@ -5,7 +5,7 @@ import random
 from .. import engineb as eb
 from ..runner import jdump
 
-RUNS = {"quick": 600, "thorough": 20000}
+RUNS = {"quick": 600, "thorough": 12000}
 DUP = {"quick": 32, "thorough": 256}
 WALL = {"quick": 1500, "thorough": 6 * 3600}
 RUN_TIMEOUT = {"quick": 600, "thorough": 900}
